@@ -316,6 +316,14 @@ func (it writerItem) snippet() snippet.Snippet {
 		return snippet.PkgExpose(it.Path, "Func")
 	case "named":
 		return snippet.ID(mkNamed(it.Path, "N"))
+	case "sharedargs":
+		// one set of named arguments handed to a template that mentions only one of them: an argument nothing mentions is
+		// never rendered, so its package is not referenced and must not be imported
+		return snippet.T("@T", snippet.Args{
+			"T":      snippet.ID(it.Path + ".T"),
+			"Unused": snippet.ID("example.com/unused/widgets.U"),
+			"AAA":    snippet.PkgExpose("example.com/never/first", "F"),
+		})
 	case "generic":
 		if len(it.Args) == 0 {
 			return snippet.ID(mkNamed(it.Path, "N"))
@@ -517,7 +525,7 @@ func init() {
 				k := 1 + r.Intn(5)
 				c := writerCase{}
 				for j := 0; j < k; j++ {
-					it := writerItem{Kind: Pick(r, []string{"idstr", "expose", "named", "generic", "lit"}), Path: genModPath(r)}
+					it := writerItem{Kind: Pick(r, []string{"idstr", "expose", "named", "generic", "lit", "sharedargs"}), Path: genModPath(r)}
 					if it.Kind == "generic" {
 						for q := 0; q < 1+r.Intn(2); q++ {
 							it.Args = append(it.Args, genModPath(r))
@@ -532,7 +540,7 @@ func init() {
 				}
 				return c
 			},
-			Rule: "1–5 references of every kind (ID(string), PkgExpose, go/types named type, generic instantiation, type literal over named types) rendered through one real SnippetWriter; oracle only: the body with the registered import block parses, imports = used qualifiers, names valid and distinct",
+			Rule: "1–5 references of every kind (ID(string), PkgExpose, go/types named type, generic instantiation, type literal over named types, a template handed more named arguments than its format mentions) rendered through one real SnippetWriter; oracle only: the body with the registered import block parses, imports = used qualifiers, names valid and distinct",
 		},
 	}})
 }
